@@ -184,7 +184,13 @@ def _maxpool(module, grad_input, grad_output):
 		_, indices = pool_func(module.input, module.kernel_size, module.stride, 
 			module.padding, module.dilation, module.ceil_mode, True)
 
-		unpool_ = unpool_func(grad_output[0] * delta_out, indices, 
+		# Both halves must be weighted by the same incoming multipliers. The
+		# halves differ when a later layer fell back to its ordinary gradient
+		# (inputs of example and reference coincide there).
+		grad_output_ = grad_output[0].chunk(2)[0]
+		grad_output_ = torch.cat([grad_output_, grad_output_])
+
+		unpool_ = unpool_func(grad_output_ * delta_out, indices, 
 			module.kernel_size, module.stride, module.padding, 
 			list(module.input.shape))
 		unpool_delta, unpool_ref_delta = torch.chunk(unpool_, 2)
